@@ -79,8 +79,17 @@ package bufimage
 //@   ensures r != nil ==> r.Path() == path
 //@   ensures r != nil ==> (exists j int :: 0 <= j && j < len(this.Files()) && this.Files()[j] == r)
 //@   ensures (exists j int :: 0 <= j && j < len(this.Files()) && this.Files()[j].Path() == path) ==> r != nil
-//@ trusted func ImageFileWithIsImport(imageFile, isImport) (r)
-//@   ensures r != nil && r.Path() == imageFile.Path() && r.IsImport() == isImport && r.FileDescriptorProto() == imageFile.FileDescriptorProto()
+// ImageFileWithIsImport (verified against its body, at the level of the *imageFile it builds): the file itself when it
+// already carries the requested flag, otherwise a NEW image file that stores the requested flag and the same descriptor
+// object. (That the interface accessors of the new object read these fields is the dispatch bridge assumed at the one
+// call site, addFileWithImports below; dynamic dispatch is not linked by the engine.)
+//@ func ImageFileWithIsImport(imageFile, isImport) (r)
+//@   property C11 C01
+//@   modifies ghost.s_unknown
+//@   requires file-given: imageFile != nil && imageFile.FileDescriptorProto() != nil
+//@   ensures same-flag-same-file: imageFile.IsImport() == isImport ==> r == imageFile
+//@   ensures other-flag-is-a-copy: imageFile.IsImport() != isImport ==> r != nil && !old(allocated(r)) && typeOf(r) == typeId(*imageFile) && cast(*imageFile, r).isImport == isImport && cast(*imageFile, r).fileDescriptorProto == imageFile.FileDescriptorProto()
+//@   ensures unknown-fields-untouched: ghost.s_unknown == old(ghost.s_unknown)
 //
 // C11 (the C01 DFS once more): post-order walk over the imports the image can resolve. seen = seenPaths, done = paths
 // of the accumulator, pending = seen \ done = the DFS stack; every pending file ranks above the file being visited
@@ -88,7 +97,13 @@ package bufimage
 // Result: imports before importers, each path once, isImport == !(path in nonImportPaths).
 //@ func addFileWithImports(accumulator, image, nonImportPaths, seenPaths, imageFile) (r)
 //@   property C11
-//@   modifies seenPaths
+//@   modifies seenPaths, ghost.s_unknown
+// dispatch bridge (assumption, listed): the interface accessors of an *imageFile read its fields, and an image
+// file's path is the name of its descriptor ((*imageFile).Path, verified in zz_verif_contracts_r4d.go)
+// (and every image file has a descriptor: newImageFile rejects a nil one, verified in zz_verif_contracts_r4d.go)
+//@   assume before "accumulator = append(" descriptor-present: imageFile.FileDescriptorProto() != nil
+//@   assume before "return accumulator"@2 dispatch-bridge: forall x ImageFile :: x == accumulator[len(accumulator) - 1] && typeOf(x) == typeId(*imageFile) ==> x.IsImport() == cast(*imageFile, x).isImport && x.FileDescriptorProto() == cast(*imageFile, x).fileDescriptorProto && x.Path() == x.FileDescriptorProto().GetName()
+//@   assume before "return accumulator"@2 path-is-descriptor-name: imageFile.Path() == imageFile.FileDescriptorProto().GetName()
 //@   reveal i_acyclic, i_doneIn, i_importsBefore
 //@   requires acyclic: i_acyclic(image)
 //@   requires member: imageFile != nil && image.GetFile(imageFile.Path()) == imageFile && seenPaths != nil
@@ -131,7 +146,7 @@ package bufimage
 // before importers, each path once, a file is a non-import iff its path was selected; nothing that is not in the image.
 //@ func getImageWithImports(image, nonImportPaths, nonImportImageFiles) (r, err)
 //@   property C11
-//@   modifies heap
+//@   modifies heap, ghost.s_unknown
 //@   reveal i_doneIn
 //@   requires acyclic: i_acyclic(image)
 //@   requires members: forall i int :: 0 <= i && i < len(nonImportImageFiles) ==> nonImportImageFiles[i] != nil && image.GetFile(nonImportImageFiles[i].Path()) == nonImportImageFiles[i]
@@ -159,7 +174,7 @@ package bufimage
 //  * every other file is selected iff i_imageDecision holds for the remaining (directory-like) --path values.
 //@ func imageWithOnlyPaths(image, fileOrDirPaths, excludeFileOrDirPaths, allowNotExist) (r, err)
 //@   property C11
-//@   modifies heap
+//@   modifies heap, ghost.s_unknown
 //@   reveal i_coversSome, i_underSome, i_in, i_isFile, i_excluded, i_named, i_dirLike, i_doneIn
 //@   use i_selected-def, i_selA-def, i_selB-def, i_imageDecision-def, i_dirSelected-def
 //@   requires acyclic: i_acyclic(image)
